@@ -1,14 +1,20 @@
 pub mod c01;
+pub mod c02;
 pub mod c05;
+pub mod c06;
+pub mod c12;
 
 use crate::engine::PropertyDef;
 
 pub fn def(id: &str) -> Option<PropertyDef> {
     Some(match id {
         "C01" => c01::def(),
+        "C02" => c02::def(),
         "C05" => c05::def(),
+        "C06" => c06::def(),
+        "C12" => c12::def(),
         _ => return None,
     })
 }
 
-pub const ALL: &[&str] = &["C01", "C05"];
+pub const ALL: &[&str] = &["C01", "C02", "C05", "C06", "C12"];
